@@ -135,6 +135,27 @@ class AtomsGeom(Ext):
             return self.positions
         if name == "cell":
             return self.cell
+        if name == "get_masses":
+            return Builtin("get_masses", lambda I_, a, k: self.masses.copy())
+        if name == "get_positions":
+            return Builtin("get_positions", lambda I_, a, k: self.positions.copy())
+        if name == "get_center_of_mass":
+            def com(I_, a, k):
+                idx = k.get("indices")
+                rows = list(range(self.k)) if idx is None else (list(idx.data) if isinstance(idx, Tensor) else list(idx))
+                if any(not isinstance(r, int) for r in rows) or k.get("scaled"):
+                    raise Unsupported("get_center_of_mass with symbolic indices / scaled")
+                tot = 0
+                for r in rows:
+                    tot = ops.binop(I_, "+", tot, self.masses.get((r,)))
+                out = []
+                for d in range(3):
+                    acc = 0
+                    for r in rows:
+                        acc = ops.binop(I_, "+", acc, ops.binop(I_, "*", self.masses.get((r,)), self.positions.get((r, d))))
+                    out.append(ops.binop(I_, "/", acc, tot))
+                return Tensor((3,), out)
+            return Builtin("get_center_of_mass", com)
         raise Unsupported(f"Atoms.{name} (geometry view)")
 
     def py_getitem(self, I, idx):
